@@ -371,14 +371,9 @@ def generate(rng: random.Random, tier: str):
                                  "query": {"q": "can_split_ta", "pos": pos, "depth": depth,
                                            "types_after": [[w.type.name, w.attrs] for w in ta]}, "answer": ans[1]},
                            schema=info.schema_term(), kind=f"struct:can_split_ta/{ans[1].split(chr(58))[0]}", nontrivial=True)
-                if ans[1] == "True" and not any(w.type.is_leaf for w in ta) and \
-                        all(w.type.compatible_content(rp.node(base + 1 + j).type) for j, w in enumerate(ta)):
-                    # (a leaf type cannot be split into, and a type whose content is of another kind than the split node's
-                    # - a blockquote split "into a heading" - cannot be joined onto it: such requests are outside what the
-                    # helper is for; upstream's canSplit approves and split throws for them as well)
-                    # ... and the promise: Transform.split with these types then succeeds and gives a valid document
-                    yield helper_case(rng, fam, g, doc, docs, "can_split",
-                                      {"a": pos, "depth": depth, "types_after": [[w.type.name, w.attrs] for w in ta]})
+                # (no "approved => split succeeds" case is derived from these answers: C12 quantifies over positions and depths,
+                # not over types_after, and upstream's canSplit approves requests its split then refuses - a blockquote split
+                # "into a heading", a list retyped as a blockquote; the comparison of the ANSWER with the model is unrestricted)
 
 
     # join sweep (appended stream): can_join and join_point (both directions) at EVERY node boundary of a few documents -
@@ -402,6 +397,25 @@ def generate(rng: random.Random, tier: str):
 
     # the same sweep over documents with a bounded-arity container (family "trio": content "block{2,3}")
     yield from trio_cases(rng, 6 if quick else 40)
+    # insert_point sweep (appended stream): at the start / end of every node, for EVERY node type - the answer walks up
+    # the ancestors one level at a time, which a sampled (position, type) pair rarely exercises beyond the first level
+    for fam in gen.FAMILY:
+        g, docs = S.family_docs(rng, fam, 5 if quick else 20)
+        info = S.info_for(fam)
+        sc = gen.family(fam)
+        types = [t for t in sc.nodes.values() if not t.is_text]
+        for doc in docs:
+            for pos in S.boundary_positions(doc):
+                rp = doc.resolve(pos)
+                if rp.parent_offset != 0 and rp.parent_offset != rp.parent.content.size:
+                    continue
+                for ty in types:
+                    term, short = _answer(info, lambda ty=ty: structure.insert_point(doc, pos, ty), "optnat")
+                    yield Case(coq=f"CStruct @S@ {info.node(doc)} (QInsertPoint {nat(pos)} {info.ty(ty)}) {term}",
+                               desc={"case": "struct", "family": fam, "doc": doc.to_json(),
+                                     "query": {"q": "insert_point", "pos": pos, "type": ty.name}, "answer": short},
+                               schema=info.schema_term(), kind=f"struct:insert_point-sweep/{short.split(':')[0] if short.startswith('error') else 'ok'}",
+                               nontrivial=True)
 
 
 def trio_cases(rng, n):
